@@ -5,7 +5,7 @@ import z3
 import common
 import e2
 import lexkern
-from e2 import conj, disj
+from e2 import result_kind, conj, disj
 from lexkern import MAXN, SymState, run_state_token, summarize_token_paths
 from mirsym import Exec, State, Opq, Agg, Ref, Seq, Val, Unsupported
 from props import C18
@@ -344,6 +344,99 @@ def run(run):
         if not clb:
             raise Unsupported("no path touches the iterator")
         e2.prove_each(run, ob, exb, [], clb, {}, replay_comments(rp, "block-newlines"))
+    except Unsupported as e:
+        ob.inconclusive(str(e))
+
+    # ---- continuation keywords after a run of newlines: `else` of an if, the next case of a match
+    def blank_replay(what, sites):
+        base_if = "def f(x: Int) -> Int =>\n    if x > 1 then\n        1\n{gap}    else\n        2\nprint(f(2))\nprint(f(0))\n"
+        base_top = "if True then\n    print(1)\n{gap}else\n    print(2)\n"
+        base_match = "def g(x: Int) -> Int =>\n    match x\n        1 => 10\n{gap}        2 => 20\n{gap}        _ => 0\nprint(g(2))\n"
+        gaps = {"blank-line": "\n", "two-blank-lines": "\n\n", "whitespace-only-line": "        \n"}
+        cgaps = {"comment-line": "{ind}# c\n"}
+
+        def f(model):
+            bad_blank, bad_comment = [], []
+            for nm, base, ind in (("else-in-function", base_if, "    "), ("else-top-level", base_top, ""), ("match-case", base_match, "        ")):
+                if nm not in sites:
+                    continue
+                st0, out0 = rp.transpile(base.format(gap=""))
+                for gnm, gap in list(gaps.items()) + [(k, v.format(ind=ind)) for k, v in cgaps.items()]:
+                    st1, out1 = rp.transpile(base.format(gap=gap))
+                    same = st1 == st0 and (st0 != "OK" or [l for l in out1.split("\n") if l.strip() and not l.strip().startswith("#")] ==
+                                           [l for l in out0.split("\n") if l.strip() and not l.strip().startswith("#")])
+                    if not same:
+                        (bad_comment if gnm in cgaps else bad_blank).append((f"{nm}:{gnm}", f"{base.format(gap=gap)!r}: {st1} {out1[:100]!r} (without the line: {st0})"))
+            bad = bad_blank + bad_comment
+            if bad:
+                kind = "+".join(sorted({b[0].split(":")[1] for b in bad}))
+                where = "+".join(sorted({b[0].split(":")[0] for b in bad}))
+                return {"reproduced": True, "role": f"{what}:{where}:{kind}", "detail": bad[0][1], "failing": [b[0] for b in bad]}
+            return {"reproduced": False, "detail": f"blank / comment lines at {sites} keep verdict and output"}
+        return f
+
+    ob = run.ob("else-after-newline-run", "E2", "parse_if: when the then-branch is followed by a run of newline tokens and `else` (peek_if_followed_by scans the "
+                "whole run), the WHOLE run is consumed before `else` is required - one newline or five, the else-branch belongs to the if", ["parse_if"])
+    try:
+        fni = e2.find1(mir, file="src/parse/control_flow_expr.rs", name="parse_if")
+        exi = Exec(mir, max_paths=5000)
+        sti = State()
+        iti = Ref(exi.new_cell(sti, Opq(z3.Const("it", Val), "LexIterator")))
+        endsi = e2.run_kernel(run, exi, fni, [iti], sti)
+        cli, ni = [], 0
+        for p in endsi:
+            evs = [e_ for e_ in p.events if e_["name"].startswith("LexIterator::")]
+            fb = [e_ for e_ in evs if e_["name"] == "LexIterator::peek_if_followed_by"]
+            if not fb or not z3.is_bool(fb[0]["ret"]):
+                continue
+            later = evs[evs.index(fb[0]) + 1:]
+            taken = exi.is_sat(list(p.cond) + [fb[0]["ret"]]) if hasattr(exi, "is_sat") else (e2.solve(exi, list(p.cond) + [fb[0]["ret"]])[0] == z3.sat)
+            not_taken = e2.solve(exi, list(p.cond) + [z3.Not(fb[0]["ret"])])[0] == z3.sat
+            if not taken or not_taken or not later:
+                continue
+            ni += 1
+            first = later[0]
+            a1 = first["args"][1] if len(first["args"]) > 1 else None
+            a1 = exi.read_ref(p.state, a1) if isinstance(a1, Ref) else a1
+            ok = first["name"] == "LexIterator::eat_while" and isinstance(a1, Agg) and a1.variant == "NL"
+            nxt = later[1] if len(later) > 1 else None
+            ok = ok and nxt is not None and nxt["name"] == "LexIterator::parse_if"
+            cli.append(z3.Implies(conj(p.cond), z3.BoolVal(bool(ok))))
+        if not ni:
+            raise Unsupported("no path takes the newline-then-else branch")
+        e2.prove_each(run, ob, exi, [], cli, {}, blank_replay("else-after-newlines", ("else-in-function", "else-top-level")))
+    except Unsupported as e:
+        ob.inconclusive(str(e))
+
+    ob = run.ob("match-cases-skip-newline-runs", "E2", "parse_match_cases, one iteration of the loop over the cases: after a case every newline token of a "
+                "run is consumed (eat_while(NL)), so blank lines between two cases are invisible", ["parse_match_cases::{closure}"])
+    try:
+        clm = [f for n, f in mir.fns.items() if re.match(r"^(.*::)?parse_match_cases::\{closure#0\}$", n)]
+        if len(clm) != 1:
+            raise Unsupported(f"parse_match_cases closure: {len(clm)} candidates")
+        exm = Exec(mir, max_paths=5000)
+        stm = State()
+        cases = Ref(exm.new_cell(stm, Seq()))
+        startm = Ref(exm.new_cell(stm, Opq(z3.Const("start", Val), "Position")))
+        envm = Ref(exm.new_cell(stm, Agg("closure", clm[0].args[0][1].lstrip("&").replace("mut ", "").strip(), [cases, startm])))
+        itm = Ref(exm.new_cell(stm, Opq(z3.Const("it", Val), "LexIterator")))
+        argsm = [envm, itm] + [Ref(exm.new_cell(stm, Opq(z3.Const(f"lex{i}", Val), "Lex"))) for i in range(len(clm[0].args) - 2)]
+        endsm = e2.run_kernel(run, exm, clm[0], argsm, stm)
+        clmm, nm_ = [], 0
+        for p in endsm:
+            if result_kind(p) != "Ok":
+                continue
+            nm_ += 1
+            evs = [e_ for e_ in p.events if e_["name"].startswith("LexIterator::")]
+            ok = len(evs) >= 2 and evs[0]["name"] == "LexIterator::parse" and evs[-1]["name"] == "LexIterator::eat_while"
+            if ok:
+                a1 = evs[-1]["args"][1]
+                a1 = exm.read_ref(p.state, a1) if isinstance(a1, Ref) else a1
+                ok = isinstance(a1, Agg) and a1.variant == "NL" and len(evs) == 2
+            clmm.append(z3.Implies(conj(p.cond), z3.BoolVal(bool(ok))))
+        if not nm_:
+            raise Unsupported("no Ok path in the case loop body")
+        e2.prove_each(run, ob, exm, [], clmm, {}, blank_replay("match-case-newlines", ("match-case",)))
     except Unsupported as e:
         ob.inconclusive(str(e))
 
